@@ -135,6 +135,19 @@ def run(ck: Check):
         n = r.randint(5, 200)
         one("line", b"".join(r.choice(LINE_ALPHABET) for _ in range(n)))
         one("symbol", b"".join(r.choice(alpha) for _ in range(n)), r.choice(SETS))
+    big = (b"call(arg_one,\n  arg_two\n);" * 45000)[: (1 << 20) + 7]
+    assert len(big) == (1 << 20) + 7
+    for sets in ((b"}", b";{"), (b"", b";"), (None, None)):
+        for data in (big, big[: (1 << 20) - 7], big * 3):
+            line, t, out = impl_load("symbol", data, sets[0], sets[1])
+            ck.count("symbol-1MiB")
+            ck.nontrivial(("symbol-1MiB", sets, len(data)))
+            b_, a_ = (sets if sets[0] is not None else (b"]}:", b"?=;{[\n"))
+            err = None if t is None else symbol_ok(t.parts, b"".join(t.parts), b_, a_)
+            if t is None or err or out != data:
+                ck.violation(f"[symbol sets={sets}] {len(data)}-byte region: " + (line if t is None else (err or "dump differs"))[:300],
+                             {"atom": "symbol", "size": len(data), "cut_before": None if sets[0] is None else sets[0].hex(),
+                              "cut_after": None if sets[1] is None else sets[1].hex()})
     cli(ck, r)
     collapse_keeps_sets(ck)
     sets_changed_between_loads(ck)
